@@ -1,6 +1,6 @@
 BOUNDS = ('well-shaped files of concrete variants: BMP 24-bit (bottom-up and top-down) and 32-bit, binary PNM P5/P6, TARGA 24/32-bit raw (bottom-up and top-down), TARGA 24-bit RLE and BMP RLE8/RLE4 with a concrete packet structure (symbolic colour values / indices), palette BMP 1/4/8 bit (partial reads, scanline rows); image 3x2 (quick) up to 4x3 (thorough); '
           'every sub-rectangle (quick: corners and centre) concrete per query; pixel data and the non-structural header bytes symbolic; compared pixel position symbolic')
-OUTSIDE = ('run-length-coded data with symbolic packet structure, ASCII PNM (their decoders are covered for safety in C11 only); scanline reader of run-length-coded and bit-packed files; any_image reader (harness MODE 10 exists; the encoding cannot follow the variant's integer-copied pointers, see the comment in queries()); std::istream devices for anything but the full read_image (C11 covers them for safety); row order of top-down BMP files (all read paths agree with each other, which is what this property states); PNG/JPEG/TIFF')
+OUTSIDE = ('run-length-coded data with symbolic packet structure, ASCII PNM (their decoders are covered for safety in C11 only); scanline reader of run-length-coded and bit-packed files; any_image reader (harness MODE 10 exists; the encoding cannot follow the integer-copied pointers of the variant, see the comment in queries()); std::istream devices for anything but the full read_image (C11 covers them for safety); row order of top-down BMP files (all read paths agree with each other, which is what this property states); PNG/JPEG/TIFF')
 ASSUMPTIONS = ['read_image through FILE* is the reference result', 'the FILE* model stands for libc']
 def queries(tier, seed):
     qs = []
